@@ -5,15 +5,33 @@ Runs the property's check against the seeded change (scratch worktree) and store
 import json, os, shutil, subprocess, sys, glob
 cid, n, pkg, first = sys.argv[1:5]
 note = sys.argv[5] if len(sys.argv) > 5 else ""
+checks = sys.argv[6].split(",") if len(sys.argv) > 6 else [cid]
+import re
 src = f"/tmp/seed-out/{cid}/change{n}"
 dst = f"/verif/seeded/{cid}-{n}"
 os.makedirs(dst, exist_ok=True)
 for f in ["patch.diff", "demo.md"] + [os.path.basename(x) for x in glob.glob(src + "/*_test.go")]:
     shutil.copy(os.path.join(src, f), os.path.join(dst, f))
-demo = subprocess.run(["/verif/tools/seeddemo.sh", src, pkg], capture_output=True, text=True).stdout
-out = subprocess.run(["/verif/tools/seedcheck.sh", src + "/patch.diff", cid], capture_output=True, text=True).stdout
-keys = [l.split("key=")[1].split(" count=")[0] for l in out.splitlines() if l.startswith("violation key=")]
-exit_code = [l for l in out.splitlines() if l.startswith("exit=")][-1].split("=")[1]
+if pkg == "auto":
+    md = open(os.path.join(src, "demo.md")).read()
+    m = re.search(r"cp [^ ]*_test\.go[^ ]* ([^ \n]+)", md)
+    pkg = m.group(1) if m else "flows/engine"
+    pkg = re.sub(r"^/tmp/seed-C[0-9]+/", "", pkg).rstrip("/")
+    if pkg.endswith(".go"):
+        pkg = os.path.dirname(pkg)
+    if pkg in ("", "."):
+        m = re.search(r"`?([a-z0-9_/]+)/`? ", md)
+        pkg = "flows/engine"
+env = dict(os.environ)
+if cid == "C09":
+    env["DEMO_RACE"] = "1"
+demo = subprocess.run(["/verif/tools/seeddemo.sh", src, pkg], capture_output=True, text=True, env=env).stdout
+verdicts = []
+for chk in checks:
+    out = subprocess.run(["/verif/tools/seedcheck.sh", src + "/patch.diff", chk], capture_output=True, text=True).stdout
+    keys = [l.split("key=")[1].split(" count=")[0] for l in out.splitlines() if l.startswith("violation key=")]
+    exit_code = [l for l in out.splitlines() if l.startswith("exit=")][-1].split("=")[1]
+    verdicts.append({"check": chk, "exit": int(exit_code), "keys_reported": keys[:12]})
 agent = json.load(open(os.path.join(src, "meta.json")))
 meta = {
     "property": cid,
@@ -32,8 +50,8 @@ meta = {
         f"tools/seedcheck.sh {src}/patch.diff {cid}",
     ],
     "first_verdict_of_the_check": first,
-    "final_verdict_of_the_check": {"check": cid, "exit": int(exit_code), "keys_reported": keys[:12]},
+    "final_verdict_of_the_check": verdicts[0] if len(verdicts) == 1 else verdicts,
     "note": note,
 }
 json.dump(meta, open(os.path.join(dst, "meta.json"), "w"), indent=1)
-print(cid, n, "exit", exit_code, keys[:3])
+print(cid, n, pkg, demo.strip().replace("\n", " | ")[:160], [(v["check"], v["exit"], v["keys_reported"][:2]) for v in verdicts])
